@@ -299,7 +299,18 @@ pub fn check_system(ctx: &Ctx, sys: &RosSys, item: u64, acc: &mut Acc, found: &m
     if st.complete() && st.violation.is_none() {
         acc.complete += 1;
     }
-    if let Some((task0, _)) = st.violation {
+    if let Some((task0, age0)) = st.violation {
+        if crate::props::uni::TRACED.fetch_add(1, std::sync::atomic::Ordering::Relaxed) >= crate::props::uni::MAX_TRACED {
+            found.push(Found {
+                key: format!("{}#bound-exceeded", sys.key()),
+                what: format!(
+                    "{}: bound {:?} for callback {} but the model reaches a state in which an instance has been pending for {} ticks (not individually traced); system {:?}",
+                    sys.key(), b[task0], task0, age0, sys
+                ),
+                replay: json!({"untraced": true, "sys": sys}),
+            });
+            return;
+        }
         let (init, ticks) = engine::find_trace(&m, Goal::Violation, 8_000_000)
             .unwrap_or_else(|| machinery_error("BFS could not reproduce a DFS violation"));
         let init_res = (init.phase, init.left);
@@ -683,6 +694,18 @@ pub fn run(id: &str, ctx: &mut Ctx) -> (String, Value, Vec<String>) {
 }
 
 pub fn replay(case: &Value) -> bool {
+    if case.get("untraced").is_some() {
+        let sys: RosSys = serde_json::from_value(case["sys"].clone()).unwrap_or_else(|e| machinery_error(&format!("bad replay file: {e}")));
+        let ctx = Ctx::new("C04", crate::util::Tier::Quick);
+        let mut acc = Acc::default();
+        let mut found = vec![];
+        crate::props::uni::TRACED.store(0, std::sync::atomic::Ordering::Relaxed);
+        check_system(&ctx, &sys, 0, &mut acc, &mut found);
+        for f in &found {
+            println!("replay: {}", f.what);
+        }
+        return !found.is_empty();
+    }
     let r: ExecReplay = serde_json::from_value(case.clone())
         .unwrap_or_else(|e| machinery_error(&format!("bad replay file: {e}")));
     let spec = r.sys.exec_spec();
